@@ -361,6 +361,17 @@ func (g *Gen) merge(b *ssa.BasicBlock, es []edge) (*State, Term) {
 	}
 	// heap
 	fams := map[string]bool{}
+	for _, e := range es[1:] {
+		for _, pf := range e.st.hv {
+			dup := false
+			for _, x := range out.hv {
+				dup = dup || x == pf
+			}
+			if !dup {
+				out.hv = append(out.hv, pf)
+			}
+		}
+	}
 	for _, e := range es {
 		for f := range e.st.heap {
 			fams[f] = true
